@@ -435,6 +435,12 @@ class IASolverBaseClass:  # pylint: disable=R0902
         value : float | np.ndarray
             The new power of all users.
         """
+        # The power scaled precoder and the full receive filters (which
+        # compensate the equivalent channel) depend on the power.
+        self._full_F = None
+        self._full_W_H = None
+        self._full_W = None
+
         if value is None:
             # Note that if self._P is None then the getter property will
             # return a numpy array of ones with the appropriated size.
